@@ -118,6 +118,16 @@ class LoopModel:
                 out.extend(ev.ev(tail, s, fp))
             else:
                 out.append((symex.UNIT, s))
+        if not getattr(self, "keep_assert_paths", False):
+            # a path that ends in a failed `assert!` / `debug_assert!` is the business of the panic inventories (which
+            # must prove the assertion or name the assumption it rests on), not of the per-opcode semantic comparisons
+            dropped = [s for _val, s in out if _assertion_failure(s)]
+            out = [(val, s) for val, s in out if not _assertion_failure(s)]
+            # the surviving siblings carry the asserted condition as a path condition; since the assertion cannot fail
+            # (inventory), it is not a condition of the path
+            asserted = {T.lnot(s.conds[-1]) for s in dropped if s.conds}
+            if asserted:
+                out = [(val, s.fork(conds=tuple(c for c in s.conds if c not in asserted))) for val, s in out]
         return out
 
     def _outer_constants(self, st, owner):
@@ -185,6 +195,19 @@ class LoopModel:
             nf = tuple((k, (T.K(8, v) if k == fld else x)) for k, x in val[3])
             return s.set(key, ("struct", val[1], val[2], nf))
         return s
+
+
+def _assertion_failure(s):
+    for e in s.effects:
+        if e[0] == "panic_in" and len(e) > 2 and any(m in ("assert", "assert_eq", "assert_ne", "debug_assert", "debug_assert_eq", "debug_assert_ne") for m in e[2]):
+            return True
+        if e[0] == "call" and isinstance(e[1], str):
+            if e[1].endswith("panicking::assert_failed") or e[1].endswith("panicking::assert_failed_inner"):
+                return True
+            if e[1].endswith("panicking::panic") and e[2] and isinstance(e[2][0], tuple) and e[2][0] and e[2][0][0] == "lit" \
+                    and str(e[2][0][1]).startswith("assertion failed"):
+                return True
+    return False
 
 
 # ---------------------------------------------------------------- canonical symbol names
